@@ -13,7 +13,7 @@ func init() { registry["C15"] = propC15 }
 func propC15() *Property {
 	return &Property{
 		ID:          "C15",
-		Explanation: "Structural clauses of the rendering property. Decided: (R1) in every markup implementation the text returned by the function that Render(width) calls is, up to trimming, the result of ansi.Wrap / ansi.DumbWrap with exactly the requested width — the three implementations of one interface must agree on this final wrap; (R2) the render cache is consulted only for an equal width and is overwritten together with its width: Render returns the cached text only on the cachedWidth == width edge, every other return stores the freshly rendered text and the width it was rendered at, constructors initialise the pair consistently, nothing else writes the pair; (R3) rendering is a function of content and width: the render functions (transitively) write no field, no package-level variable and nothing reachable from their inputs, and read no package-level state other than the immutable configuration and compiled regexps. (R4) the wrap functions honour their width: by inference of an inductive loop invariant (engine E9, the instances of C13.R1 and C13.R2) no line completed by ansi.Wrap or ansi.DumbWrap has more visible characters than the width, for every text and width >= 1 — so with R1 every rendering fits the width it was asked for. NOT decided: the content of the rendering.",
+		Explanation: "Structural clauses of the rendering property. Decided: (R1) in every markup implementation the text returned by the function that Render(width) calls is, up to trimming, the result of ansi.Wrap / ansi.DumbWrap with exactly the requested width — the three implementations of one interface must agree on this final wrap; (R2) the render cache is consulted only for an equal width and is overwritten together with its width: Render returns the cached text only on the cachedWidth == width edge, every other return stores the freshly rendered text and the width it was rendered at, constructors initialise the pair consistently, nothing else writes the pair; (R3) rendering is a function of content and width: the render functions (transitively) write no field, no package-level variable and nothing reachable from their inputs, and read no package-level state other than the immutable configuration and compiled regexps. (R4) the wrap functions honour their width: by inference of an inductive loop invariant (engine E9, the instances of C13.R1 and C13.R2) no line completed by ansi.Wrap or ansi.DumbWrap has more visible characters than the width, for every text and width >= 1 — so with R1 every rendering fits the width it was asked for. (R2, addition) the source kept by NewMarkup for later renderings is the value the initial rendering was made from. NOT decided: the content of the rendering.",
 		Assumptions: []string{"config.Parsed is immutable after start-up (C08.R6)"},
 		Rules: []Rule{
 			{ID: "C15.R1", Title: "final wrap with the requested width in every renderer", Floor: 3, Run: c15R1},
@@ -255,6 +255,36 @@ func c15R2(c *Ctx) {
 			}
 		}
 		c.check(okInit, nname+"/initial-cache", P.Pos(n.Pos()), nname, "initial cache = rendering at the recorded width", whyInit)
+		// … and of the source that is kept: what Render hands to the render function later (a field of the
+		// markup) must be the very value the initial rendering was made from
+		srcField := ""
+		eachInstr(r, func(_ *ssa.BasicBlock, _ int, in ssa.Instruction) {
+			call, ok := in.(*ssa.Call)
+			if !ok || call.Call.StaticCallee() != m.inner || len(call.Call.Args) == 0 {
+				return
+			}
+			if f := loadedField(call.Call.Args[0]); f != nil {
+				srcField = f.Name()
+			}
+		})
+		if ex, ok := initText.(*ssa.Extract); ok && srcField != "" {
+			if call, ok := ex.Tuple.(*ssa.Call); ok && call.Call.StaticCallee() == m.inner && len(call.Call.Args) > 0 {
+				var kept ssa.Value
+				eachInstr(n, func(_ *ssa.BasicBlock, _ int, in ssa.Instruction) {
+					if st, ok := in.(*ssa.Store); ok {
+						if fa, ok := st.Addr.(*ssa.FieldAddr); ok && fieldOf(fa).Name() == srcField && namedOf(fa.X.Type()) != nil && namedOf(fa.X.Type()).Obj().Name() == "Markup" {
+							kept = st.Val
+						}
+					}
+				})
+				same := kept != nil && unwrapLoad(kept) == unwrapLoad(call.Call.Args[0])
+				if f := loadedField(call.Call.Args[0]); !same && f != nil && f.Name() == srcField && kept != nil {
+					same = true // rendered from the field itself, after it was filled
+				}
+				c.check(same, nname+"/initial-source", P.Pos(n.Pos()), nname, "the source kept in "+srcField+" is the one the initial rendering was made from",
+					"NewMarkup renders one text for the initial cache and keeps another in "+srcField+" for later renderings (trimmed, normalised or converted differently): at the initial width the markup shows something else than after a resize and back")
+			}
+		}
 		// no other writer
 		for _, fn := range P.Funcs {
 			if fn == r || fn == n {
